@@ -257,6 +257,11 @@ func c06LibRaise(w *fw.W, k int) {
 	}
 }
 
+// c06LibLoc: a message may quote the position of the failing call ("c06lib:1:102: s:of: ..."),
+// and the bare call sits at another column than the same call inside a handling form; the two
+// runs are compared with positions blanked (a false alarm at seed 3 before this).
+var c06LibLoc = regexp.MustCompile(`c06(lib|ctl):\d+:\d+`)
+
 func c06LibErrSig(v *lisp.LVal) string {
 	if v == nil || v.Type != lisp.LError {
 		return "not-an-error: " + c06LibOutcome(v)
@@ -269,7 +274,7 @@ func c06LibErrSig(v *lisp.LVal) string {
 	if lisp.IsInternalPanic(v) {
 		p = "[panic]"
 	}
-	return v.Str + p + " " + strings.Join(d, " | ")
+	return v.Str + p + " " + c06LibLoc.ReplaceAllString(strings.Join(d, " | "), "c06:L:C")
 }
 
 func c06LibDriver(d *fw.D) {
